@@ -973,10 +973,20 @@ def _is_projection(e, var, consts, helper=None):
     if isinstance(e, ast.Name):
         return e.id == var
     if isinstance(e, ast.Call):
-        if isinstance(e.func, ast.Attribute) and e.func.attr in ("data", "bytes") and not e.args and not e.keywords:
-            return _is_projection(e.func.value, var, consts, helper)
+        if isinstance(e.func, ast.Attribute) and e.func.attr in ("data", "bytes") and not e.keywords and len(e.args) <= 1:
+            # `.data()` / `.data(<how many components>)`: the component accessor of a coordinate (what it returns is
+            # judged on the coordinate classes themselves, below)
+            a0 = e.args[0] if e.args else None
+            if a0 is None or isinstance(a0, ast.Constant) or (isinstance(a0, ast.Name) and a0.id in consts) or \
+                    (isinstance(a0, ast.Attribute) and isinstance(a0.value, ast.Name) and a0.value.id in ("self", "cls")):
+                return _is_projection(e.func.value, var, consts, helper)
         if ap(e.func) in ("tuple", "list", "bytes") and len(e.args) == 1 and not e.keywords:
             return _is_projection(e.args[0], var, consts, helper)
+        # `typ(*x)`: a plain sequence wrapped into the factory's coordinate class (a constant of the factory); that
+        # the constructor keeps the wire components as they are is a separate obligation on the coordinate classes
+        if isinstance(e.func, ast.Name) and e.func.id in consts and len(e.args) == 1 and not e.keywords \
+                and isinstance(e.args[0], ast.Starred):
+            return _is_projection(e.args[0].value, var, consts, helper)
         if helper is not None and not e.keywords:
             val = helper(e, consts)
             if val is not None:
@@ -1147,6 +1157,55 @@ def r6(ctx):
                        f"({[norm(st.value) for st in sts + rebinds if st.value is not None]}): a value unpacked from the wire is "
                        f"changed on construction (clamped / NaN-scrubbed / rounded) and packs back to different bytes")
     ctx.floor("C02.R6", "coordinate classes built by SPECS unpackers", len(seen), 2)
+
+    # the component accessor the packers go through: data() hands back the stored wire components, in order.  The one
+    # tolerated computation is a sign flip of all of them under `self.<derived component> < 0` (q and -q are the same
+    # rotation) - tolerated because it can never apply to a value that came off the wire: the unpacker builds the
+    # coordinate from the wire components only, and __init__ then derives that component as a non-negative number.
+    for cname, n_wire in sorted(seen):
+        ci = repo.resolve_class(cname, packer_cls.module) or repo.cls(cname)
+        init, data = repo.lookup_method(ci, "__init__"), repo.lookup_method(ci, "data")
+        if init is None or data is None:
+            continue
+        comps = [a.arg for a in init.node.args.args][1:]
+        wire, derived = comps[:n_wire], comps[n_wire:]
+        for r in [x for x in walk(data.node) if isinstance(x, ast.Return)]:
+            elts = r.value.elts if isinstance(r.value, ast.Tuple) else None
+            if elts is None:
+                ctx.ob("C02.R6", f"{ci.name}.data: `{norm(r)}` returns the stored components", False, ctx.w(data, r),
+                       "not a tuple of the coordinate's attributes")
+                continue
+            plain = all(ap(e) == f"self.{comps[i]}" for i, e in enumerate(elts) if i < len(comps)) and len(elts) <= len(comps)
+            flipped = len(elts) == n_wire and all(isinstance(e, ast.UnaryOp) and isinstance(e.op, ast.USub)
+                                                  and ap(e.operand) == f"self.{wire[i]}" for i, e in enumerate(elts))
+            if plain and len(elts) >= n_wire:
+                ctx.ob("C02.R6", f"{ci.name}.data: `{norm(r)}` returns the stored components", True, ctx.w(data, r))
+                continue
+            guards = [e for e, pol in facts(r, data.node) if pol and isinstance(e, ast.Compare) and len(e.ops) == 1
+                      and isinstance(e.ops[0], ast.Lt) and (ap(e.left) or "").startswith("self.")
+                      and (ap(e.left) or "")[5:] in derived and isinstance(e.comparators[0], ast.Constant)
+                      and e.comparators[0].value == 0]
+            if not (flipped and guards):
+                ctx.ob("C02.R6", f"{ci.name}.data: `{norm(r)}` returns the stored components", False, ctx.w(data, r),
+                       "the accessor the packers use hands back something other than the stored wire components (or their "
+                       "joint sign flip under a negative derived component)")
+                continue
+            d = ap(guards[0].left)[5:]
+            sts = [st for st in stores(init.node, into_defs=False) if st.path == f"self.{d}" and st.kind == "assign"
+                   and any(is_none_test(e) == (d, True) and pol or is_none_test(e) == (d, False) and not pol
+                           for e, pol in facts(st.node, init.node))]
+
+            def nonneg(v):
+                if isinstance(v, ast.Constant) and isinstance(v.value, (int, float)) and not isinstance(v.value, bool):
+                    return v.value >= 0
+                return isinstance(v, ast.Call) and (ap(v.func) or "").split(".")[-1] in ("sqrt", "abs", "fabs", "hypot")
+            default_none = any(isinstance(dv, ast.Constant) and dv.value is None for a_, dv in
+                               zip(init.node.args.args[-len(init.node.args.defaults):], init.node.args.defaults) if a_.arg == d)
+            ok = bool(sts) and default_none and all(st.value is not None and nonneg(st.value) for st in sts)
+            ctx.ob("C02.R6", f"{ci.name}.data: sign flip `{norm(r)}` under `{norm(guards[0])}` cannot apply to a wire value: "
+                             f"__init__ derives {d} >= 0 when it is not given", ok, ctx.w(data, r),
+                   f"{ci.name}.__init__ does not provably derive a non-negative {d} when only the wire components are passed "
+                   f"({[norm(st.value) for st in sts]}): a quaternion parsed from the wire could be re-encoded with flipped signs")
 
 
 # --------------------------------------------------------------------------- R7
